@@ -112,9 +112,9 @@ def dict_key(v):
 
 def snapshot(v):
     if isinstance(v, VList):
-        return VList(list(v.items))
+        return VList([snapshot(x) for x in v.items])
     if isinstance(v, VDict):
-        return VDict(dict(v.items))
+        return VDict({k: snapshot(x) for k, x in v.items.items()})
     if isinstance(v, VSeq):
         s = VSeq(v.ty, v.t)
         s.__dict__.update({k: x for k, x in v.__dict__.items() if k not in ('ty', 't')})
@@ -1070,6 +1070,10 @@ def builtin(I, o, args, kwargs, callnode):
             return (VTuple if o is tuple else VList)(items)
         if isinstance(args[0], VSeq):
             return snapshot(args[0])
+        if isinstance(args[0], VIter):
+            # materialising a lazy iterator over symbolic sequences: iterate a snapshot
+            return VIter(args[0].how, [snapshot(x) if isinstance(x, V) else x for x in args[0].srcs],
+                         args[0].start)
         raise Unsupported('%s() of symbolic iterable' % name)
     if o is dict:
         if not args:
